@@ -60,7 +60,7 @@ pub fn check(step: &Step, model: &Model) -> Vec<Finding> {
                     Some(UState::Tentative { .. }) => {
                         "c21 preconfirmed_tx_reported_squeezed_out"
                     }
-                    None if step.chain.txs.contains(id) => {
+                    None if step.truth.txs.contains(id) => {
                         "c21 committed_tx_reported_squeezed_out"
                     }
                     None => "c21 squeezed_out_report_for_tx_not_in_pool",
